@@ -42,6 +42,16 @@ class Infra(Exception):
     """Infrastructure failure: exit 2, never a verdict."""
 
 
+class Crash(Infra):
+    """The driver process died with a Go FATAL error raised inside the code under test (stack overflow, concurrent map
+    write, ...): not recoverable by recover(). C17 turns it into a violation; other checks report it as infrastructure failure
+    unless they had already recorded real verdict mismatches."""
+
+    def __init__(self, msg, stderr):
+        Infra.__init__(self, msg)
+        self.stderr = stderr
+
+
 class TLCResult:
     def __init__(self, out, rc, wall):
         self.out = out
@@ -176,12 +186,20 @@ class Check:
         e["VERIF_SEED"] = str(self.seed)
         if env:
             e.update(env)
+        def limit():
+            # a runaway recursion / allocation loop in the code under test must end as a Go fatal error, not as an OOM kill
+            import resource
+            resource.setrlimit(resource.RLIMIT_AS, (24 << 30, 24 << 30))
         try:
             p = subprocess.run([driver or self.driver] + args, env=e, capture_output=True, text=True,
-                               timeout=timeout, cwd=self.scratch)
+                               timeout=timeout, cwd=self.scratch, preexec_fn=limit)
         except subprocess.TimeoutExpired:
             raise Infra("driver timed out: %s" % " ".join(args))
         if p.returncode not in ok_codes:
+            if "fatal error:" in p.stderr and ("jub0bs/cors" in p.stderr):
+                head = p.stderr[p.stderr.index("fatal error:"):][:300]
+                frames = [ln.strip() for ln in p.stderr.splitlines() if "jub0bs/cors" in ln][:6]
+                raise Crash("driver %s died inside the code under test: %s | %s" % (args[0], head.splitlines()[0], " <- ".join(frames)), p.stderr[:20000])
             raise Infra("driver %s exited %d:\n%s%s" % (args[0], p.returncode, p.stdout[-4000:], p.stderr[-4000:]))
         return p
 
@@ -424,6 +442,11 @@ def run_check(fn, pid, level="model_checking"):
         fn(c)
         rc = c.finish()
     except Infra as e:
+        if c.violations:
+            # real-code violations were already established by the property's own predicate; a later infrastructure
+            # problem (e.g. a vacuity guard tripped BECAUSE of the misbehaviour) does not erase them
+            c.drift.append("check ended early: %s" % str(e)[:300])
+            return c.finish()
         sys.stderr.write("INFRA-ERROR %s: %s\n" % (pid, e))
         c.cleanup()
         return 2
